@@ -41,7 +41,7 @@ fn ridx(r: &str) -> usize {
 }
 /// session uuid of model session `sid` on entry `e` (session ids are unique across entries)
 fn ses_uuid2(e: u64, sid: u64) -> Uuid {
-    Uuid::from_u128(0x5e55_0000_0000_4000_8000_0000_0000_0000u128 + (e as u128) * 16 + sid as u128)
+    Uuid::from_u128(0x5e55_0000_0000_4000_8000_0000_0000_0000u128 + (e as u128) * 64 + sid as u128)
 }
 
 impl World {
@@ -200,7 +200,7 @@ impl World {
                 let mut ses = Map::new();
                 if let Some(m) = e.get_ava_as_session_map(Attribute::UserAuthTokenSession) {
                     for (sid, sv) in m.iter() {
-                        let k = sid.as_u128().wrapping_sub(ses_uuid2(0, 0).as_u128()) % 16;
+                        let k = sid.as_u128().wrapping_sub(ses_uuid2(0, 0).as_u128()) % 64;
                         let v = match &sv.state {
                             SessionState::RevokedAt(c) => json!({"st": 2, "c": [c.ts.as_secs().saturating_sub(T0), c.ts.subsec_nanos(), self.srv_name(&c.s_uuid)]}),
                             SessionState::ExpiresAt(_) | SessionState::NeverExpires => json!({"st": 1, "c": [0, 0, ""]}),
@@ -396,6 +396,9 @@ fn gen_script(rng: &mut Rng, n: usize, len: usize, mode: &str) -> Vec<J> {
     let grps: [u64; 2] = [5, 6];
     let names = ["n1", "n2", "n3"];
     let rep = |rng: &mut Rng| NAMES[rng.below(n as u64) as usize];
+    // sessions get fresh ids (as real logins do) and are revoked on the replica that issued them
+    let mut next_sid: u64 = 1;
+    let mut issued: Vec<(&'static str, u64, u64)> = vec![];
     if mode == "sessions" {
         for e in ents.iter().take(3) {
             v.push(json!({"op":"create","r":"A","e":e,"name":format!("p{e}"),"kind":"person"}));
@@ -408,8 +411,11 @@ fn gen_script(rng: &mut Rng, n: usize, len: usize, mode: &str) -> Vec<J> {
         let e = *rng.pick(&ents);
         let op = match mode {
             "sessions" => match k {
-                0..=34 => json!({"op":"addses","r":r,"e":rng.range(1,3),"sid":rng.range(1,4)}),
-                35..=59 => json!({"op":"revses","r":r,"e":rng.range(1,3),"sid":rng.range(1,4)}),
+                0..=34 if next_sid < 60 => { let e = rng.range(1,3); let sid = next_sid; next_sid += 1; issued.push((r, e, sid));
+                    json!({"op":"addses","r":r,"e":e,"sid":sid}) }
+                35..=59 if !issued.is_empty() => { let (r0, e, sid) = *rng.pick(&issued);
+                    json!({"op":"revses","r":r0,"e":e,"sid":sid}) }
+                0..=59 => json!({"op":"setdn","r":r,"e":rng.range(1,3),"v":format!("d{}", rng.below(3))}),
                 60..=64 => json!({"op":"setdn","r":r,"e":rng.range(1,3),"v":format!("d{}", rng.below(3))}),
                 _ => {
                     let f = rep(rng);
@@ -426,7 +432,8 @@ fn gen_script(rng: &mut Rng, n: usize, len: usize, mode: &str) -> Vec<J> {
                 40..=47 => json!({"op":"purge_rec","r":r}),
                 48..=55 => json!({"op":"purge_ts","r":r}),
                 56..=65 => json!({"op":"advance","dt": *rng.pick(&[100_000u64, 400_000, 604_801, 700_000])}),
-                66..=69 => json!({"op":"addses","r":r,"e":e,"sid":rng.range(1,3)}),
+                66..=69 if next_sid < 60 => { let sid = next_sid; next_sid += 1; issued.push((r, e, sid)); json!({"op":"addses","r":r,"e":e,"sid":sid}) }
+                66..=69 => json!({"op":"setdn","r":r,"e":e,"v":"d1"}),
                 70..=73 => json!({"op":"create","r":r,"e":*rng.pick(&grps),"name":format!("g{}", rng.below(2)),"kind":"group"}),
                 74..=77 => json!({"op":"addmem","r":r,"g":*rng.pick(&grps),"m":e}),
                 _ => {
@@ -443,8 +450,9 @@ fn gen_script(rng: &mut Rng, n: usize, len: usize, mode: &str) -> Vec<J> {
                 24..=31 => json!({"op":"rename","r":r,"e":e,"name":*rng.pick(&names)}),
                 32..=41 => json!({"op":"addmem","r":r,"g":*rng.pick(&grps),"m": if rng.chance(1,5) { *rng.pick(&grps) } else { e }}),
                 42..=46 => json!({"op":"delmem","r":r,"g":*rng.pick(&grps),"m":e}),
-                47..=56 => json!({"op":"addses","r":r,"e":e,"sid":rng.range(1,3)}),
-                57..=61 => json!({"op":"revses","r":r,"e":e,"sid":rng.range(1,3)}),
+                47..=56 if next_sid < 60 => { let sid = next_sid; next_sid += 1; issued.push((r, e, sid)); json!({"op":"addses","r":r,"e":e,"sid":sid}) }
+                57..=61 if !issued.is_empty() => { let (r0, e0, sid) = *rng.pick(&issued); json!({"op":"revses","r":r0,"e":e0,"sid":sid}) }
+                47..=61 => json!({"op":"setdn","r":r,"e":e,"v":"d2"}),
                 62..=66 => json!({"op":"delete","r":r,"e":if rng.chance(1,4) { *rng.pick(&grps) } else { e }}),
                 67..=69 => json!({"op":"revive","r":r,"e":e}),
                 _ => {
